@@ -380,3 +380,15 @@ Proof.
 Qed.
 
 End OpenProofs.
+
+(* a read-only Open - with or without Check / Recover - changes no file: the directory is exactly as before
+   (Recover on a read-only handle only checks) *)
+Theorem log_open_readonly_keeps_dir (H : bytes -> Z) st c0 st' :
+  cro c0 = true -> segs st <> [] -> log_open H st c0 = Ok st' -> segs st' = segs st.
+Proof.
+  intros Hro Hne. unfold log_open. destruct (opened st); [discriminate|].
+  replace (cro (norm_cfg c0)) with true by (symmetry; exact Hro).
+  destruct (segs st) as [|s0 r0] eqn:Es; [congruence|].
+  destruct (if ccheck (norm_cfg c0) || crecover (norm_cfg c0) then dir_check H (cparams (norm_cfg c0)) st else Ok tt); [|discriminate].
+  cbn [bind]. intros E. injection E as <-. reflexivity.
+Qed.
